@@ -6,6 +6,7 @@ package main
 
 import (
 	"fmt"
+	"regexp"
 	"sort"
 	"strings"
 )
@@ -302,6 +303,178 @@ func genShipped(r *Rng) *shippedCase {
 		}
 	}
 	return c
+}
+
+// ---------------------------------------------------------------- C04: the shipped generators run again on their own result
+
+type rerunCase struct {
+	shippedCase
+	Base  string `json:"base"` // OutputFileBaseName
+	All   bool   `json:"all,omitempty"`
+	class bool
+}
+
+const rerunForeignClass = "the second run differs from the first only in the statement deepcopy chooses for a field whose type is a struct or map type of ANOTHER package of the run that the run itself generates DeepCopy methods for (assignment on the first run, when those methods do not exist yet; a call of them from the second run on), and from the second run on nothing changes any more"
+
+var (
+	reAssignField = regexp.MustCompile(`^\s*out\.(\w+) = in\.(\w+)$`)
+	reCallField   = regexp.MustCompile(`^\s*(?:in\.(\w+)\.DeepCopyInto\(&out\.(\w+)\)|out\.(\w+) = \*?in\.(\w+)\.DeepCopy\(\))$`)
+)
+
+// onlyForeignFieldStatements: runs 2, 3 and 4 wrote the same files, and run 2 differs from run 1 only in lines that turn
+// `out.F = in.F` into a DeepCopy / DeepCopyInto call for a field F that, in that package, has a by-value type of another
+// package of the run whose declaration is tagged
+func (c *rerunCase) onlyForeignFieldStatements(out *genRunOut) bool {
+	for run := 2; run < 4; run++ {
+		if len(out.Generated[run]) != len(out.Generated[1]) {
+			return false
+		}
+		for rel, t := range out.Generated[1] {
+			if out.Generated[run][rel] != t {
+				return false
+			}
+		}
+	}
+	if len(out.Generated[0]) != len(out.Generated[1]) {
+		return false
+	}
+	changed := 0
+	for rel, a := range out.Generated[0] {
+		b, ok := out.Generated[1][rel]
+		if !ok {
+			return false
+		}
+		if a == b {
+			continue
+		}
+		var pkg int
+		if _, err := fmt.Sscanf(rel, "a%d/", &pkg); err != nil || pkg >= len(c.Pkgs) || !strings.HasSuffix(rel, ".deepcopy.go") {
+			return false
+		}
+		la, lb := strings.Split(a, "\n"), strings.Split(b, "\n")
+		if len(la) != len(lb) {
+			return false
+		}
+		for i := range la {
+			if la[i] == lb[i] {
+				continue
+			}
+			ma, mb := reAssignField.FindStringSubmatch(la[i]), reCallField.FindStringSubmatch(lb[i])
+			if ma == nil || mb == nil || ma[1] != ma[2] {
+				return false
+			}
+			f := mb[1] + mb[3]
+			if f != ma[1] || (mb[1] != mb[2]) || (mb[3] != mb[4]) {
+				return false
+			}
+			if !c.foreignGeneratedField(out, pkg, f) {
+				return false
+			}
+			changed++
+		}
+	}
+	return changed > 0
+}
+
+// foreignGeneratedField: some struct of package pkg has a field of that name whose type is, by value, a struct or defined
+// map of another package for which the run generated DeepCopy methods (tagged, or needed by a tagged type of its package)
+func (c *rerunCase) foreignGeneratedField(out *genRunOut, pkg int, field string) bool {
+	for _, t := range c.Pkgs[pkg] {
+		for _, f := range t.Fields {
+			if f.Name != field || len(f.Ty) < 2 || (f.Ty[0] != 'L' && f.Ty[0] != 'M') {
+				continue
+			}
+			var j int
+			var name string
+			if _, err := fmt.Sscanf(strings.Replace(f.Ty[1:], ".", " ", 1), "%d %s", &j, &name); err != nil || j == pkg || j >= len(c.Pkgs) {
+				continue
+			}
+			gen := out.Generated[1][fmt.Sprintf("a%d/%s.deepcopy.go", j, c.Base)]
+			if strings.Contains(gen, "func (in *"+name+") DeepCopy") || strings.Contains(gen, "func (in "+name+") DeepCopy") {
+				return true
+			}
+		}
+	}
+	return false
+}
+
+func (c *rerunCase) eval() {
+	c.have = true
+	job := c.job(nil)
+	for i := range c.Pkgs {
+		job.Entry = append(job.Entry, fmt.Sprintf("./a%d", i))
+	}
+	job.Runs, job.Base, job.All = 4, c.Base, c.All
+	out := runGenJob(job)
+	if out.Harness != "" || len(out.ExecErr) < 4 {
+		c.out = "not run (" + out.Harness + strings.Join(out.ExecErr, ";") + ")"
+		return
+	}
+	for run, e := range out.ExecErr {
+		if e != "" {
+			c.out = fmt.Sprintf("DIFF run %d failed: %s", run+1, e)
+			return
+		}
+	}
+	for run := 1; run < 4; run++ {
+		names := map[string]bool{}
+		for rel := range out.Generated[0] {
+			names[rel] = true
+		}
+		for rel := range out.Generated[run] {
+			names[rel] = true
+		}
+		for _, rel := range sortedKeys(names) {
+			a, okA := out.Generated[0][rel]
+			b, okB := out.Generated[run][rel]
+			if okA != okB || a != b {
+				c.out = fmt.Sprintf("DIFF run %d on the result of run %d changed %s (output file base name %q; %d bytes after run 1, %d after run %d)", run+1, run, rel, c.Base, len(a), len(b), run+1)
+				if c.onlyForeignFieldStatements(out) {
+					c.class = true
+					c.out += " — " + rerunForeignClass
+				}
+				return
+			}
+		}
+	}
+	c.out = fmt.Sprintf("same files=%d", len(out.Generated[0]))
+}
+func (c *rerunCase) Run() string {
+	if !c.have {
+		c.eval()
+	}
+	return strings.SplitN(c.out, "\n", 2)[0]
+}
+func (c *rerunCase) Oracle(out string) string {
+	if strings.HasPrefix(c.out, "DIFF ") {
+		return c.out[5:]
+	}
+	return ""
+}
+func (c *rerunCase) Shrinks() []Case {
+	var out []Case
+	for _, s := range c.shippedCase.Shrinks() {
+		out = append(out, &rerunCase{shippedCase: *s.(*shippedCase), Base: c.Base, All: c.All})
+	}
+	return out
+}
+func (c *rerunCase) Key() string {
+	if c.class {
+		return "class: " + rerunForeignClass
+	}
+	return c.shippedCase.Key() + " base=" + c.Base + fmt.Sprint(" all=", c.All)
+}
+func (c *rerunCase) Classes() []string {
+	return append(c.shippedCase.Classes(), "base:"+c.Base, fmt.Sprint("all:", c.All))
+}
+
+var rerunStream = &Stream{
+	Name: "shipped-rerun", Quick: 18, Thorough: 150, New: func() Case { return &rerunCase{} },
+	Gen: func(r *Rng, i int) Case {
+		return &rerunCase{shippedCase: *genShipped(r), Base: []string{"zz_generated", "zz_gen", "generated", "zz_generated_v2"}[i%4], All: r.Bool()}
+	},
+	ShrinkBudget: 8, MaxShrinks: 2,
+	Rule: "the type graphs of C05's shipped-generators stream run through the real deepcopy and runtimedoc generators four times in a row in one tree, each run on the result of the one before (fresh context each), with the output file base name zz_generated, zz_gen, generated or zz_generated_v2 and with and without All; oracle: every run succeeds and every generated file after runs 2, 3 and 4 is byte for byte what run 1 wrote",
 }
 
 var shippedStream = &Stream{
